@@ -53,6 +53,8 @@ pub mod state;
 pub mod type_def;
 pub mod unused_expression_checker;
 pub mod value;
+#[cfg(feature = "verif-hooks")]
+pub mod verif;
 
 pub type DiagnosticMessages = Vec<Box<dyn DiagnosticMessage>>;
 pub type Result<T = CompilationResult> = std::result::Result<T, DiagnosticList>;
